@@ -15,6 +15,32 @@ pub struct Orbifold {
     pub handles: usize,
     pub crosscaps: usize,
     pub orientable: bool,
+    /// orientable surface with boundary: the components read consistently with ONE orientation of the
+    /// surface (each up to rotation only), the whole list up to simultaneous reversal of all components -
+    /// on an orientable orbifold the relative reading direction of two chiral components is part of the
+    /// orbifold (`*725*643` and `*752*643` are different); None otherwise
+    pub oriented: Option<Vec<Vec<usize>>>,
+}
+
+/// normal form of a cyclic sequence up to rotation only: lexicographically largest rotation
+pub fn rotation_normal_form(c: &[usize]) -> Vec<usize> {
+    let n = c.len();
+    (0..n.max(1)).map(|k| (0..n).map(|t| c[(k + t) % n]).collect::<Vec<usize>>()).max().unwrap_or_default()
+}
+
+/// true if the cyclic sequence differs from its reverse (up to rotation)
+pub fn is_chiral(c: &[usize]) -> bool {
+    let rev: Vec<usize> = c.iter().rev().cloned().collect();
+    rotation_normal_form(c) != rotation_normal_form(&rev)
+}
+
+/// normal form of a list of consistently oriented components up to simultaneous reversal
+pub fn oriented_normal_form(comps: &[Vec<usize>]) -> Vec<Vec<usize>> {
+    let mut a: Vec<Vec<usize>> = comps.iter().map(|c| rotation_normal_form(c)).collect();
+    a.sort();
+    let mut b: Vec<Vec<usize>> = comps.iter().map(|c| rotation_normal_form(&c.iter().rev().cloned().collect::<Vec<_>>())).collect();
+    b.sort();
+    a.max(b)
 }
 
 /// normal form of a cyclic sequence up to rotation and reversal: lexicographically largest
@@ -108,6 +134,30 @@ pub fn orbifold(s: &MSym) -> Orbifold {
     // boundary components: cycles of boundary edges (d, i) with op_i d = d
     let mut visited: BTreeSet<(usize, usize)> = BTreeSet::new();
     let mut boundaries = vec![];
+    // a global orientation (if there is one): sign +1 / -1 per chamber, flipped by every non-fixed operation
+    let mut sign: Vec<i8> = vec![0; s.n + 1];
+    let mut globally_oriented = s.n >= 1;
+    if s.n >= 1 {
+        sign[1] = 1;
+        let mut queue = std::collections::VecDeque::from([1usize]);
+        while let Some(d) = queue.pop_front() {
+            for i in 0..=2 {
+                let e = s.op[i][d];
+                if e != d {
+                    if sign[e] == 0 {
+                        sign[e] = -sign[d];
+                        queue.push_back(e);
+                    } else if sign[e] == sign[d] {
+                        globally_oriented = false;
+                    }
+                }
+            }
+        }
+        if sign[1..].iter().any(|&x| x == 0) {
+            globally_oriented = false; // not connected
+        }
+    }
+    let mut oriented_components: Vec<Vec<usize>> = vec![];
     for i0 in 0..=2 {
         for d0 in 1..=s.n {
             if s.op[i0][d0] != d0 || visited.contains(&(d0, i0)) {
@@ -115,8 +165,11 @@ pub fn orbifold(s: &MSym) -> Orbifold {
             }
             let mut corners = vec![];
             let (mut d, mut i) = (d0, i0);
-            // direction: first turn around the vertex shared with index (i+1)%3
-            let mut j = (i + 1) % 3;
+            // direction: with the surface on the left with respect to the global orientation when there is
+            // one (a positively oriented chamber has its corners 0, 1, 2 counter-clockwise, so its side i runs
+            // from corner i+1 to corner i+2 and ends in the corner of the index pair {i, i+1}); arbitrary
+            // (as for a positive chamber) otherwise
+            let mut j = if globally_oriented && sign[d0] < 0 { (i + 2) % 3 } else { (i + 1) % 3 };
             let mut guard = 0;
             loop {
                 visited.insert((d, i));
@@ -137,6 +190,7 @@ pub fn orbifold(s: &MSym) -> Orbifold {
                 }
             }
             boundaries.push(cyclic_normal_form(&corners));
+            oriented_components.push(corners);
         }
     }
     boundaries.sort();
@@ -160,7 +214,8 @@ pub fn orbifold(s: &MSym) -> Orbifold {
     } else {
         (0, x as usize)
     };
-    Orbifold { cones, boundaries, handles, crosscaps, orientable }
+    let oriented = if orientable && globally_oriented && !oriented_components.is_empty() { Some(oriented_normal_form(&oriented_components)) } else { None };
+    Orbifold { cones, boundaries, handles, crosscaps, orientable, oriented }
 }
 
 impl Orbifold {
@@ -307,9 +362,10 @@ pub fn parse_symbol(text: &str) -> Option<Orbifold> {
     }
     cones.sort();
     cones.reverse();
+    let oriented = if crosscaps == 0 && !boundaries.is_empty() { Some(oriented_normal_form(&boundaries)) } else { None };
     let mut boundaries: Vec<Vec<usize>> = boundaries.iter().map(|b| cyclic_normal_form(b)).collect();
     boundaries.sort();
-    Some(Orbifold { cones, boundaries, handles, crosscaps, orientable: crosscaps == 0 })
+    Some(Orbifold { cones, boundaries, handles, crosscaps, orientable: crosscaps == 0, oriented })
 }
 
 #[cfg(test)]
